@@ -22,7 +22,10 @@ type cEvent struct {
 	T1   int64   `json:"t1"` // call: callback entered (the append has happened); snap/reset: returned
 	Snap []int64 `json:"snap,omitempty"`
 	Torn string  `json:"torn,omitempty"`
+	Panic bool   `json:"panic,omitempty"` // the callback panics after the call was recorded
 }
+
+type concPanic struct{}
 
 var clock int64
 
@@ -53,13 +56,22 @@ func runConc(e Entry, rng *rand.Rand, histories, ops int) {
 		}
 		G := []int{2, 4, 8, 16}[(h+rng.Intn(2))%4]
 		withResets := e.Resets && h%2 == 1
+		// a -stub mock is also used with its function fields left nil: those calls are recorded like any other
+		nilFuncs := e.Stub && h%4 >= 2
 		var cur sync.Map  // gid -> *cEvent
 		var args sync.Map // token -> []reflect.Value
 		for _, m := range in.methods {
+			if nilFuncs {
+				count("concurrent_nil_func_histories", 1)
+				break
+			}
 			m := m
 			in.field(m.Name).Set(reflect.MakeFunc(m.Sig, func(a []reflect.Value) []reflect.Value {
 				if ev, ok := cur.Load(isync.GID()); ok {
 					atomic.StoreInt64(&ev.(*cEvent).T1, tick())
+					if ev.(*cEvent).Panic {
+						panic(concPanic{})
+					}
 				}
 				return zeros(m.Sig)
 			}))
@@ -138,14 +150,24 @@ func runConc(e Entry, rng *rand.Rand, histories, ops int) {
 							a[i] = synth(m.Sig.In(i), tok, 0)
 						}
 						args.Store(tok, a)
-						ev := &cEvent{G: g, Op: "call", M: m.Name, Tok: tok}
+						ev := &cEvent{G: g, Op: "call", M: m.Name, Tok: tok, Panic: !nilFuncs && lr.Intn(16) == 0}
 						cur.Store(gid, ev)
 						ev.T0 = tick()
-						if m.Variadic {
-							in.meth(m.Name).CallSlice(a)
-						} else {
-							in.meth(m.Name).Call(a)
-						}
+						func() {
+							defer func() {
+								if r := recover(); r != nil {
+									if _, mine := r.(concPanic); !mine {
+										panic(r)
+									}
+									count("concurrent_panicking_callbacks", 1)
+								}
+							}()
+							if m.Variadic {
+								in.meth(m.Name).CallSlice(a)
+							} else {
+								in.meth(m.Name).Call(a)
+							}
+						}()
 						if atomic.LoadInt64(&ev.T1) == 0 {
 							ev.T1 = tick() // callback did not run on this goroutine: close the interval at return
 						}
